@@ -31,8 +31,8 @@ var listingCoq = map[string]string{"amt-src": "LAmtSrc", "amt-dst": "LAmtDst", "
 func Pages(r *rng.R, n int) Result {
 	res := Result{Evaluator: "run_page", InputType: "page_case",
 		Imports: []string{"From Orbiter Require Import Corr.RunPage."},
-		Rule: "statistics ledgers built by importing generated genesis documents (1-12 amount entries, 0-8 count entries over all source / destination protocols, boundary identifiers, " +
-			"several denominations, repeated keys) and by transfers; queries through the dispatcher's QueryServer: direct lookups (present / absent / zero / invalid identifiers), single pages " +
+		Rule: "statistics ledgers built by importing generated genesis documents (amount and count entries over all source / destination protocols, boundary identifiers, " +
+			"several denominations) and then by 0-36 generated transfers through the real receive path (new entries and repeated updates of existing ones, kept through the secondary indexes); queries through the dispatcher's QueryServer: direct lookups (present / absent / zero / invalid identifiers), single pages " +
 			"(offset 0..len+5, limit 0..len+1, count-total, reverse) of the four listings for every protocol filter, whole walks following next-keys forwards and in reverse for every page size, " +
 			"key and offset together; non-trivial = the listing addressed is non-empty; distinct by (ledger, query)",
 		Notes: map[string]any{}}
@@ -46,6 +46,7 @@ func Pages(r *rng.R, n int) Result {
 	qs := dispatchercomp.NewQueryServer(wr.w.S.App.OrbiterKeeper.Dispatcher())
 	seen := map[string]bool{}
 	kinds := map[string]int{}
+	ledgers := map[string]int{}
 	for len(res.Cases) < n {
 		cr := r.Fork()
 		// a ledger
@@ -61,10 +62,47 @@ func Pages(r *rng.R, n int) Result {
 		if err != nil || mod.ValidateGenesis(cdc, nil, bz) != nil {
 			continue
 		}
-		class, _, _, ctx, _ := wr.initOn(mod, bz)
-		if class != 0 {
-			continue
+		ctx := wr.caseCtx()
+		source := "transfers"
+		if cr.Chance(65) {
+			source = "genesis+transfers"
+			bad := false
+			func() {
+				defer func() {
+					if recover() != nil {
+						bad = true
+					}
+				}()
+				mod.InitGenesis(ctx, cdc, bz)
+			}()
+			if bad {
+				continue
+			}
 		}
+		// transfers on top: new entries and updates of existing ones, maintained through the indexes
+		gg := &gen{r: cr, w: wr.w, a: wr.a, p: profiles["C13"], cdc: wr.cdc}
+		moved := 0
+		for i := cr.Intn(12); i > 0; i-- {
+			pkt, info := gg.genPacket()
+			if info.spec == nil || pkt.ICS == nil {
+				continue
+			}
+			if _, memo, ok := info.spec.build(wr.cdc); ok {
+				pkt.ICS.Memo = memo
+			} else {
+				continue
+			}
+			if info.denom != "" && info.amount.Sign() > 0 {
+				wr.topUp(ctx, info.dstChan, info.denom, info.amount)
+			}
+			reps := 1 + cr.Intn(3)
+			for j := 0; j < reps; j++ {
+				if o := wr.w.RunOp(ctx, world.Op{Kind: "recv", Pkt: pkt}); o.Recv.Success {
+					moved++
+				}
+			}
+		}
+		ledgers[fmt.Sprintf("%s/%d-transfers", source, moved)]++
 		st := wr.w.ObserveState(ctx)
 		exported := wr.w.S.App.OrbiterKeeper.ExportGenesis(ctx)
 		// the reference listings, from the exported entries alone
@@ -91,6 +129,31 @@ func Pages(r *rng.R, n int) Result {
 		for q := 0; q < 14 && len(res.Cases) < n; q++ {
 			kind := rng.Pick(cr, []string{"amt-src", "amt-dst", "cnt-src", "cnt-dst"})
 			pname := rng.Pick(cr, []string{"PROTOCOL_IBC", "PROTOCOL_CCTP", "PROTOCOL_HYPERLANE", "PROTOCOL_INTERNAL", "PROTOCOL_INTERNAL", "PROTOCOL_UNSUPPORTED", "x"})
+			if cr.Chance(70) {
+				// a protocol the ledger knows
+				var present []string
+				for i := range exported.DispatcherGenesis.DispatchedAmounts {
+					e := &exported.DispatcherGenesis.DispatchedAmounts[i]
+					if strings.HasPrefix(kind, "amt") {
+						if kind == "amt-src" {
+							present = append(present, e.SourceId.ProtocolId.String())
+						} else {
+							present = append(present, e.DestinationId.ProtocolId.String())
+						}
+					}
+				}
+				for i := range exported.DispatcherGenesis.DispatchedCounts {
+					e := &exported.DispatcherGenesis.DispatchedCounts[i]
+					if kind == "cnt-src" {
+						present = append(present, e.SourceId.ProtocolId.String())
+					} else if kind == "cnt-dst" {
+						present = append(present, e.DestinationId.ProtocolId.String())
+					}
+				}
+				if len(present) > 0 {
+					pname = rng.Pick(cr, present)
+				}
+			}
 			pid := int32(protoNumber[pname])
 			var ref []cq.V
 			if strings.HasPrefix(kind, "amt") {
@@ -329,6 +392,7 @@ func Pages(r *rng.R, n int) Result {
 		}
 	}
 	res.Notes["kinds"] = kinds
+	res.Notes["ledgers_built_by"] = ledgers
 	return res
 }
 
